@@ -304,10 +304,17 @@ func c05Comparisons(c *Ctx, rule string) {
 	if f == nil {
 		return
 	}
+	// every switch over the predicate's CompOp (a feature may dispatch operators of its own in a switch of their own)
 	var sw *ast.SwitchStmt
+	var clauses []*ast.CaseClause
 	inspectBody(f.Decl.Body, func(x ast.Node) bool {
-		if s, ok := x.(*ast.SwitchStmt); ok && sw == nil && s.Tag != nil && strings.HasSuffix(exprKey(s.Tag), ".CompOp") {
-			sw = s
+		if s, ok := x.(*ast.SwitchStmt); ok && s.Tag != nil && strings.HasSuffix(exprKey(s.Tag), ".CompOp") {
+			if sw == nil {
+				sw = s
+			}
+			for _, cs := range s.Body.List {
+				clauses = append(clauses, cs.(*ast.CaseClause))
+			}
 		}
 		return true
 	})
@@ -316,8 +323,7 @@ func c05Comparisons(c *Ctx, rule string) {
 		return
 	}
 	seen := map[string]bool{}
-	for _, s := range sw.Body.List {
-		cc := s.(*ast.CaseClause)
+	for _, cc := range clauses {
 		for _, e := range cc.List {
 			cst := f.namedConst(e)
 			if cst == nil {
@@ -326,7 +332,9 @@ func c05Comparisons(c *Ctx, rule string) {
 			want, known := opOfToken[cst.Name()]
 			key := f.Name + "|case|" + cst.Name()
 			if !known {
-				c.Fail(rule, key, cc.Pos(), "case %s is not a comparison operator token", cst.Name())
+				// an operator that is not one of the scanner's comparison tokens (IS NULL, BETWEEN, … added by a
+				// feature): nothing in the token table says what it must compute
+				c.Note("%s: case %s of evalComparisonPredicate is not a comparison operator token; not checked", rule, cst.Name())
 				continue
 			}
 			seen[cst.Name()] = true
@@ -420,23 +428,27 @@ func c05Comparisons(c *Ctx, rule string) {
 		c.Check(okOp, rule, pf.Name+"|stores-matched-operator", pf.Decl.Pos(), "CompOp is the operator token just matched; LHS is the expression parsed first", "the comparison node does not store the matched operator token / the first operand as LHS")
 	}
 	// operands: lhs from q.LHS, rhs from q.RHS
-	okSides := 0
+	leftOK, rightOK, crossed := false, false, false
 	inspectBody(f.Decl.Body, func(x ast.Node) bool {
 		if as, ok := x.(*ast.AssignStmt); ok && len(as.Lhs) == 2 && len(as.Rhs) == 1 {
 			if call, ok := as.Rhs[0].(*ast.CallExpr); ok && f.CallIs(call, "engine.evalPrimary") && len(call.Args) >= 1 {
 				if id, ok := as.Lhs[0].(*ast.Ident); ok {
-					if sideOf(f, id) == 1 && strings.HasSuffix(exprKey(call.Args[0]), ".LHS") {
-						okSides++
-					}
-					if sideOf(f, id) == 2 && strings.HasSuffix(exprKey(call.Args[0]), ".RHS") {
-						okSides++
+					fromL := strings.HasSuffix(exprKey(call.Args[0]), ".LHS")
+					fromR := strings.HasSuffix(exprKey(call.Args[0]), ".RHS")
+					switch sideOf(f, id) {
+					case 1:
+						leftOK = leftOK || fromL
+						crossed = crossed || fromR
+					case 2:
+						rightOK = rightOK || fromR
+						crossed = crossed || fromL
 					}
 				}
 			}
 		}
 		return true
 	})
-	c.Check(okSides == 2, rule, f.Name+"|operand-sides", f.Decl.Pos(), "lhs is evaluated from LHS and rhs from RHS", "the left/right values are not evaluated from the predicate's LHS/RHS respectively")
+	c.Check(leftOK && rightOK && !crossed, rule, f.Name+"|operand-sides", f.Decl.Pos(), "lhs is evaluated from LHS and rhs from RHS", "the left/right values are not evaluated from the predicate's LHS/RHS respectively")
 }
 
 // ---- C05.4 --------------------------------------------------------------------------
